@@ -232,7 +232,7 @@ fn monitor_max_spread(
 }
 
 /// two-asset constant-product tolerance: documented bound  d_i/d_j (1-t) <= p_i/p_j  both ways
-fn monitor_cp_tol(mon: &mut Monitor, pfx: &str, tol: Option<u128>, d: [u128; 2], pl: [u128; 2], status: &str, desc: &dyn Fn() -> String) {
+pub(crate) fn monitor_cp_tol(mon: &mut Monitor, pfx: &str, tol: Option<u128>, d: [u128; 2], pl: [u128; 2], status: &str, desc: &dyn Fn() -> String) {
     let ok = status == "ok";
     let tl = match tol {
         None => {
